@@ -139,6 +139,60 @@ def several_sids(ctx, rec, real, cases):
             cases.append(cons.line())
 
 
+
+def ticking(ctx):
+    """a clock that advances on every read (one 100 ns tick), started just before an L2 / L1 / L0 boundary: whatever instants the
+    protect call happens to see, the blob it returns must decrypt — on the protecting cache and on a fresh cache holding the same root
+    key — to the plaintext (real crypto, sync and async, both layouts)"""
+    import asyncio, uuid
+    import dpapi_ng, dpapi_ng._client as c
+    B, EPOCH = 360000000000, 116444736000000000
+    rk = uuid.UUID("d778c271-9025-9a82-f6dc-b8960b8ad8c5")
+    root = bytes(range(7, 71))
+    old = c.time
+    try:
+        for span, label in ((1, "L2"), (32, "L1"), (1024, "L0")):
+            for back in (1, 2, 3):
+                for hn in (("SHA512", "SHA256") if back == 1 else ("SHA512",)):
+                    for use_async in (False, True):
+                        k = (EPOCH // (span * B) + 400) * span * B          # a boundary of this level in the 2010s
+                        t0 = (k - back - EPOCH) * 100
+                        shown = []
+
+                        class T:
+                            @staticmethod
+                            def time_ns():
+                                shown.append(t0 + 100 * len(shown))
+                                return shown[-1]
+                        c.time = T
+                        kp = None
+                        from dpapi_ng import _gkdi as g
+                        cache_a, cache_b = dpapi_ng.KeyCache(), dpapi_ng.KeyCache()
+                        for ch in (cache_a, cache_b):
+                            ch.load_key(root, root_key_id=rk, kdf_parameters=g.KDFParameters(hn).pack())
+                        data = b"ticking " + label.encode()
+                        inp = {"scenario": "ticking_clock", "boundary": label, "ticks_before": back, "hash": hn, "async": use_async}
+                        try:
+                            blob = asyncio.run(dpapi_ng.async_ncrypt_protect_secret(data, "S-1-5-18", root_key_identifier=rk, cache=cache_a)) if use_async else \
+                                dpapi_ng.ncrypt_protect_secret(data, "S-1-5-18", root_key_identifier=rk, cache=cache_a)
+                        except Exception as e:  # noqa
+                            ctx.violation("protect fails under a moving clock", inp, canon_exc(e), "a blob")
+                            return
+                        ctx.count("ticking_clock:" + label)
+                        for who, ch in (("fresh cache", cache_b), ("protecting cache", cache_a)):
+                            for wire in (blob, relayout(blob)):
+                                try:
+                                    got = asyncio.run(dpapi_ng.async_ncrypt_unprotect_secret(wire, cache=ch)) if use_async else dpapi_ng.ncrypt_unprotect_secret(wire, cache=ch)
+                                except Exception as e:  # noqa
+                                    got = ("raised " + canon_exc(e)).encode()
+                                if got != data:
+                                    ctx.violation("a blob protected while the clock crossed an interval boundary does not decrypt to the plaintext",
+                                                  {**inp, "unprotect_on": who, "clock_readings_during_protect": len(shown)}, got.decode("latin-1")[:100], data.decode())
+                                    return
+    finally:
+        c.time = old
+
+
 def run(ctx):
     prelude.validate(ctx)
     rng = ctx.rng
@@ -181,6 +235,7 @@ def run(ctx):
                 continue     # 2048-bit modexp is the slow part
             n = rng.choice(lens)
             roundtrip(ctx, True, rec, bytes(rng.randrange(256) for _ in range(min(n, 5000))) + b"\x00" * max(0, n - 5000), sids(rng, 1)[0], clocks(rng, 1)[0], mode, rng.random() < 0.3, [])
+    ticking(ctx)
 
 
 def search(ctx, broken, disagreements):
@@ -190,6 +245,12 @@ def search(ctx, broken, disagreements):
 def replay(ctx, payload):
     v = payload["violation"]["input"]
     print("recorded input:", v)
+    if v.get("scenario") == "ticking_clock":
+        c2 = type(ctx)(ctx.prop, "quick", ctx.seed)
+        ticking(c2)
+        for x in c2.violations:
+            print(" ", x["what"], x["input"], x["observed"])
+        return not c2.violations
     if v.get("scenario") == "several_sids":
         rec = [r for r in clientsim.standard_roots(real=v.get("real_crypto", False)) if r.hash_name == v["hash"] and r.secret_algorithm == v["alg"]][0]
         c2 = type(ctx)(ctx.prop, "quick", ctx.seed)
